@@ -28,6 +28,27 @@ CHECKS = {
  "C17": ("reng", "exploration", "runtime monitoring: state-walk with every operation probed in every state, side effects detected by directory hash and counter",
          "Held on the generated walks over closed / open-without-mode / RW / WO: I/O and management calls fail on a closed replica without touching the directory, writes are applied only in RW/WO, chain surgery and counter updates are refused outside RW without side effects.",
          "Engine-level gates; the REST action table and the attach-only-when-closed clause are checked by the REST engine.", "DESIGN.md 4/C17"),
+ "C02": ("ctlsim", "exploration", "runtime monitoring: per-operation quorum oracle over scripted per-replica outcomes + per-replica image comparison",
+         "Held on the generated controller histories (RF 1..5, all fault kinds per replica per operation): no write/flush/unmap was acknowledged unless strictly more than half of the attached replicas applied it, every replica that failed an operation was detached when the call returned, and at quiescent points every attached replica held every acknowledged write.",
+         "Scripted backends honour the backend contract; the rpc transport itself is C15's.", "DESIGN.md 4/C02"),
+ "C03": ("ctlsim", "exploration", "runtime monitoring: read-only rule evaluated at settled points of membership walks, with probe I/O",
+         "Held on the generated membership walks: at every settled point ReadOnly == (#RW < RF/2+1); mutating probes were refused without reaching a replica iff read-only and accepted whenever a quorum was RW.",
+         "Evaluated at settled points (every triggered monitor event acted upon).", "DESIGN.md 4/C03"),
+ "C04": ("ctlsim", "exploration", "runtime monitoring: per-read oracle (who served, what was returned) at every cursor position with read faults",
+         "Held on the generated histories: reads reached RW replicas only (WO/ERR replicas hold a poison pattern), successful reads equalled the model of acknowledged writes, failed readers were detached and another RW replica served, and reads failed when no RW replica existed.",
+         "Same fakes as C02.", "DESIGN.md 4/C04"),
+ "C05": ("ctlsim", "exploration", "runtime monitoring: minority-failure oracle over all three failure detectors in every order",
+         "Held on the generated histories: whenever the survivors of an operation formed a majority including an RW replica the operation was acknowledged; failed replicas were ERR-or-absent at return and absent once their monitor event was consumed; detached replicas received no further call and came back only through add + sync + verify.",
+         "Process kills of real replicas are exercised by the cluster engine.", "DESIGN.md 4/C05"),
+ "C09": ("ctlsim", "exploration", "runtime monitoring: election oracle against harness ground truth (revision, state, liveness) over enumerated registration orders",
+         "Held on the generated bootstrap sequences: no start signal before a majority registered, every fresh election chose a replica of maximal revision among registered, reachable, non-rebuilding ones, only the elected replica could start the volume, lower-revision replicas named in Start were not RW and served no read.",
+         "Full stop-and-restart of real replicas is exercised by the cluster engine.", "DESIGN.md 4/C09"),
+ "C13": ("ctlsim", "exploration", "runtime monitoring: per-replica totally ordered applied logs compared across replicas; checkpoint invariant at settled points",
+         "Held on the generated histories: under 2-4 concurrent writers with per-call delays every snapshot cut the write stream at the same point on all replicas; snapshots were refused unless all RF were RW; a recorded checkpoint always implied all RF RW, presence in every chain, persistence on every replica and (when newly recorded) agreement on the latest snapshot; it was withdrawn when a replica left.",
+         "Byte-identity of snapshot images on real replica directories is exercised by the cluster engine.", "DESIGN.md 4/C13"),
+ "C18": ("ctlsim", "exploration", "runtime monitoring: structural invariants of the controller's three membership structures at settled points (hooked state) + call logs",
+         "Held on the generated membership walks: replica list, replicator backend map, reader and writer lists and RWReplicaCount agreed at every settled point; no duplicates, never more than RF replicas or more than one WO; writes reached exactly the writers and detached replicas received no call after Close.",
+         "State read through the verif-tagged VerifState hook under the controller lock.", "DESIGN.md 4/C18"),
 }
 
 NOT_YET = "check not built yet in this round (see DESIGN.md build order); no verdict claimed"
@@ -48,6 +69,8 @@ def main():
      "engines": [
        {"name": "reng", "path": "harness/internal/reng", "serves_properties": ["C01", "C06", "C10", "C11", "C12", "C16", "C17"],
         "kind_free_text": "real replica engine (replica.Server on ext4, real hole puncher, real fold) + reference model of block image and snapshot chain"},
+       {"name": "ctlsim", "path": "harness/internal/ctlsim", "serves_properties": ["C01", "C02", "C03", "C04", "C05", "C09", "C13", "C16", "C18"],
+        "kind_free_text": "real controller.Controller over scripted types.Backend fakes (per-call outcome scripts, applied logs, remote.Remote-like monitor channel) + HTTP stubs of the replica REST API"},
      ],
      "checks": [],
      "notes": "All checks: ./check <ID> quick|thorough. Exit 0 held / 1 VIOLATION / 2 INCONCLUSIVE (harness floor not met) / 3 harness build failure. Known findings: known_findings.json.",
